@@ -881,7 +881,7 @@ class Interp(EvalMixin):
         s_true.facts[key] = True
         s_false.facts[key] = False
         self._note_fact(st, key, expr)
-        if raw in self.guards or key in self.guards:
+        if raw in self.guards or key in self.guards or any(g.startswith("*") and raw.endswith(g[1:]) for g in self.guards):
             s_true.emit(ev("guard", self.site(st, expr), text=key, truth=True))
             s_false.emit(ev("guard", self.site(st, expr), text=key, truth=False))
         self._refine_truth(expr, v, s_true, True)
